@@ -843,6 +843,17 @@ func (g *sgen) mutate(text string) string {
 			b = b[r.Intn(len(b)):]
 		}
 	}
+	switch r.Intn(6) {
+	case 0: // end on a rune some IsNext pattern starts with, after a comment or as it comes
+		b = append(b, []string{"-", "//\n-", "/", "V", "f", "=", "?", "//\n--", "\n// x\n-"}[r.Intn(9)]...)
+	case 1: // a first word whose byte length exceeds its rune count
+		w := strings.Repeat([]string{"é", "🎲", "٣"}[r.Intn(3)], 1+r.Intn(12))
+		j := 0
+		if k := strings.LastIndexByte(string(b), '\n'); k >= 0 && r.Intn(2) == 0 {
+			j = k + 1
+		}
+		b = append(b[:j], append([]byte(w+" x "), b[j:]...)...)
+	}
 	return string(b)
 }
 
@@ -862,7 +873,8 @@ func tiny(r *runner, maxLen int) {
 	rec("", maxLen)
 }
 
-var tails = []string{"---functions---", "---functions--", "---functions-", "---types---", "---types--", "a#1 = A;\n---", "a#1 = A;\n--", "a#1 = A;\n/", "a#1 = A;\n//", "a#1 = A;\n// @type", "a#1 = A;\n// @type x",
+var tails = []string{"//\n-", "a#1 = A;\n//\n-", "a#1 = A;\n// @type x\n-", "a#1 = A;\n🎲🎲🎲 x", "a#1 = A;\nééééééééé x", "a#1 = A;\n  \tééééééééééé#2 = B;\n",
+	"a#1 = A;\n//\n/", "a#1 = A;\n//\n--", "a#1 = A;\n//\n---", "//x\n=", "a#1 x:int\n//\n=", "a#1 x:f", "a#1 = A;\n//\nV", "---functions---\n//\n-", "//\n//\n-", "---functions---", "---functions--", "---functions-", "---types---", "---types--", "a#1 = A;\n---", "a#1 = A;\n--", "a#1 = A;\n/", "a#1 = A;\n//", "a#1 = A;\n// @type", "a#1 = A;\n// @type x",
 	"a#1 x:f", "a#1 x:fl", "a#1 x:flags.", "a#1 x:flags.1", "a#1 x:flags.1?", "a#1 x:flags.1?V", "a#1 x:V", "a#1 x:Vector", "a#1 x:Vector<", "a#1 x:Vector<int", "a#1 x:Vector<int>", "a#1 x:int =", "a#1 x:int = ", "a#1 x:int = V",
 	"a#1 x:int = Vector<A", "a#1 x:int = Vector<A>", "a#1 x:int = Vector<A>;", "a#1 = A", "a#1 = A;", "a#1 =A;", "a#1 =", "a#1 ", "a#1", "a#", "a", "int ", "int ?", "int ? = Int;", "boolTrue#1 = Bool", "boolTrue#1 = Bool;",
 	"a#zz = A;\n", "a#1ffffffff = A;\n", "a#00000000001 = A;\n", "a#FFffFFff = A;\n", "a#-1 = A;\n", "a#+1 = A;\n", "a#0x1 = A;\n", "a#1_0 = A;\n", "a# = A;\n",
